@@ -290,7 +290,7 @@ fn reader_side(ctx: &Ctx, comp: &Comp, cname: &str, o: &LZMAOptions, data: &[u8]
                 let mut rd = mk_bcj_reader(*id, FaultyRead::new(&stream, plan), 0);
                 drain(&mut rd, sizes, cap, 8)
             }
-            Comp::Bcj2 => unreachable!(),
+            Comp::Bcj2 | Comp::XzMulti => unreachable!(),
         }
     };
     let reference = match catch(|| read_with(&[65536], ReadPlan::default())) {
